@@ -30,6 +30,7 @@ theorem vmTry_jsCall (fl : Flow) : vmTry (jsCall fl) = vmTry fl := by
   | normal => rfl
   | panic x o =>
     cases x <;> simp [vmTry, jsCall, handleThrow, handleThrowLoop, exceptionFromValue]
+  | pending e => simp [vmTry, jsCall, handleThrow, handleThrowLoop, exceptionFromValue]
 
 theorem callable_indep (a b : Bool) (fl : Flow) : callable a fl = callable b fl := by
   cases a <;> cases b <;> simp [callable, invoke, runWrapped, vmTry_jsCall]
@@ -39,6 +40,7 @@ theorem runProgram_eq_runWrapped (fl : Flow) : runProgram fl = runWrapped fl := 
   cases fl with
   | normal => rfl
   | panic x o => simp [runProgram, runProgram.handleThrowOpt, runWrapped, vmTry]
+  | pending e => simp [runProgram, runProgram.handleThrowOpt, runWrapped, vmTry]
 
 /-! ## Payloads that no recover site can classify as a JS exception -/
 
@@ -100,7 +102,7 @@ theorem Unc.trans {x y z : Pv} (h1 : Unc x y) (h2 : Unc y z) : Unc x z := by
 /-- Every frame lets an unclassifiable panic value through (an RFW frame wraps an uncatchable error once more; a
 foreign panic is never touched), and logs nothing: no catch block, no finally block, no iterator return() runs. -/
 theorem applyFrame_unclassifiable (idx : Nat) (f : Frame) (cjs : Bool) {x : Pv}
-    (h : x.unclassifiable = true) (hd : f.dropsErrors = false) (o : StackTop) :
+    (h : x.unclassifiable = true) (hd : f.dropsErrors = false ∨ asUncatchableException x = none) (o : StackTop) :
     ∃ x' o', applyFrame idx f cjs (.panic x o) = (.panic x' o', []) ∧ Unc x x' ∧ (f.rewraps = false → x' = x) := by
   have hv : vmTry (.panic x o) = .panic x o := by
     cases x <;> simp [Pv.unclassifiable] at h <;>
@@ -122,21 +124,25 @@ theorem applyFrame_unclassifiable (idx : Nat) (f : Frame) (cjs : Bool) {x : Pv}
     refine ⟨x, ?_⟩
     have hu := Unc.refl h
     cases f <;>
-      simp [applyFrame, jsFrame_unclassifiable _ _ h, callable_unclassifiable _ h, hn, panicErr, returnErr,
+      simp [applyFrame, applyFrameCore, jsFrame_unclassifiable _ _ h, callable_unclassifiable _ h, hn, panicErr, returnErr,
         wrapJSFuncE, wrapJSFuncN, hs, hi, runProgram_eq_runWrapped, runWrapped, vmTry_jsCall, hv, hj,
         panicValue, returnWrapped, hht, hu, Frame.rewraps]
   · by_cases hf : f = .rfw
     · subst hf
       refine ⟨.goErr (.wrap 0 e), .other, ?_, ⟨rfl, ?_, ?_⟩, ?_⟩
-      · simp [applyFrame, callable_unclassifiable _ h, hr, returnWrapped, wrapErr, wrapReflectErr,
+      · simp [applyFrame, applyFrameCore, callable_unclassifiable _ h, hr, returnWrapped, wrapErr, wrapReflectErr,
           GoErr.isUncatchable, he]
       · simp [Pv.peel, GoErr.peel]
       · intro hn; simp [asUncatchableException, he] at hn
       · intro hrw; simp [Frame.rewraps] at hrw
     · refine ⟨.goErr e, ?_⟩
       have hu := Unc.refl h
+      have hd : f.dropsErrors = false := by
+        rcases hd with hd | hd
+        · exact hd
+        · simp [asUncatchableException, he] at hd
       cases f <;> simp at hf <;> simp [Frame.dropsErrors] at hd <;>
-        simp [applyFrame, jsFrame_unclassifiable _ _ h, callable_unclassifiable _ h, hr, panicErr, returnErr,
+        simp [applyFrame, applyFrameCore, jsFrame_unclassifiable _ _ h, callable_unclassifiable _ h, hr, panicErr, returnErr,
           wrapJSFuncE, wrapJSFuncN, hs, hs', hi, runProgram_eq_runWrapped, runWrapped, vmTry_jsCall, hv, hj,
           ErrVal.toPv, wrapReflectErr, he, panicValue, hht, hu, Frame.rewraps, hv']
 
@@ -145,12 +151,12 @@ theorem applyFrame_unclassifiable (idx : Nat) (f : Frame) (cjs : Bool) {x : Pv}
 theorem applyFrame_normal (idx : Nat) (f : Frame) (cjs : Bool) :
     (applyFrame idx f cjs .normal).1 = .normal := by
   cases f <;> cases cjs <;>
-    simp [applyFrame, jsFrame, callable, invoke, runWrapped, panicErr, returnErr, wrapReflectErr, wrapJSFuncE,
+    simp [applyFrame, applyFrameCore, jsFrame, callable, invoke, runWrapped, panicErr, returnErr, wrapReflectErr, wrapJSFuncE,
       wrapJSFuncN, shim, runProgram, runProgram.handleThrowOpt, panicValue, returnWrapped, JsKind.hasFinally]
 
 theorem applyFrame_normal_log (idx : Nat) (f : Frame) (cjs : Bool) :
     ∀ l ∈ (applyFrame idx f cjs .normal).2, l = ⟨idx, .fin⟩ := by
-  cases f <;> simp [applyFrame]
+  cases f <;> simp [applyFrame, applyFrameCore]
   · rename_i k
     cases k <;> simp [jsFrame, JsKind.hasFinally]
   · simp [jsFrame, JsKind.hasFinally]
@@ -178,16 +184,21 @@ theorem evalSeg_normal_log (s : Seg) (ijs : Bool) : ∀ l ∈ (evalSeg s .normal
       rw [applyFrame_normal_log _ _ _ l hl]
 
 theorem evalSeg_unclassifiable (s : Seg) (ijs : Bool) {x : Pv} (h : x.unclassifiable = true)
-    (hdr : ∀ q ∈ s, q.2.dropsErrors = false) (o : StackTop) :
+    (hdr : (∀ q ∈ s, q.2.dropsErrors = false) ∨ asUncatchableException x = none) (o : StackTop) :
     ∃ x' o', evalSeg s (.panic x o) ijs = (.panic x' o', []) ∧ Unc x x' ∧
       ((∀ q ∈ s, q.2.rewraps = false) → x' = x) := by
   induction s with
   | nil => exact ⟨x, o, rfl, Unc.refl h, fun _ => rfl⟩
   | cons hd tl ih =>
     obtain ⟨i, f⟩ := hd
-    obtain ⟨x1, o1, h1, u1, r1⟩ := ih (fun q hq => hdr q (List.mem_cons_of_mem _ hq))
+    obtain ⟨x1, o1, h1, u1, r1⟩ := ih (by
+      rcases hdr with h' | h'
+      · exact Or.inl (fun q hq => h' q (List.mem_cons_of_mem _ hq))
+      · exact Or.inr h')
     obtain ⟨x2, o2, h2, u2, r2⟩ := applyFrame_unclassifiable i f (headIsJS tl ijs) u1.1
-      (hdr (i, f) (List.mem_cons_self ..)) o1
+      (by rcases hdr with h' | h'
+          · exact Or.inl (h' (i, f) (List.mem_cons_self ..))
+          · exact Or.inr (by rw [u1.2.2 h']; exact h')) o1
     refine ⟨x2, o2, by simp [evalSeg, h1, h2], u1.trans u2, ?_⟩
     intro hq
     rw [r2 (hq (i, f) (List.mem_cons_self ..)), r1 (fun q hq' => hq q (List.mem_cons_of_mem _ hq'))]
@@ -218,7 +229,7 @@ theorem recover_toHost (x : Pv) (o : StackTop) : (recoverUncatchable x o).toHost
 escapes `leave()` unobserved. -/
 theorem runJobs_unclassifiable (p : Payload) {x : Pv} {o : StackTop} (hp : p.flow = .panic x o)
     (h : x.unclassifiable = true) :
-    ∀ ss : List Seg, ss ≠ [] → (∀ s ∈ ss, ∀ q ∈ s, q.2.dropsErrors = false) →
+    ∀ ss : List Seg, ss ≠ [] → ((∀ s ∈ ss, ∀ q ∈ s, q.2.dropsErrors = false) ∨ asUncatchableException x = none) →
       ∃ x', Unc x x' ∧ ((∀ s ∈ ss, ∀ q ∈ s, q.2.rewraps = false) → x' = x) ∧
       runJobs p ss = ⟨escapeHost x', [], normalLogs ss.dropLast⟩ := by
   intro ss
@@ -228,11 +239,17 @@ theorem runJobs_unclassifiable (p : Payload) {x : Pv} {o : StackTop} (hp : p.flo
     intro _ hd
     cases tl with
     | nil =>
-      obtain ⟨x', o', he, hu, hr⟩ := evalSeg_unclassifiable s p.isJS h (hd s (List.mem_cons_self ..)) o
+      obtain ⟨x', o', he, hu, hr⟩ := evalSeg_unclassifiable s p.isJS h
+        (by rcases hd with h' | h'
+            · exact Or.inl (h' s (List.mem_cons_self ..))
+            · exact Or.inr h') o
       refine ⟨x', hu, fun hq => hr (hq s (List.mem_cons_self ..)), ?_⟩
       simp [runJobs, segInner, hp, he, vmTry_invoke_unclassifiable _ hu.1, recover_toHost, normalLogs]
     | cons s2 tl2 =>
-      obtain ⟨x', hu, hr, ih'⟩ := ih (by simp) (fun s' hs' => hd s' (List.mem_cons_of_mem _ hs'))
+      obtain ⟨x', hu, hr, ih'⟩ := ih (by simp)
+        (by rcases hd with h' | h'
+            · exact Or.inl (fun s' hs' => h' s' (List.mem_cons_of_mem _ hs'))
+            · exact Or.inr h')
       refine ⟨x', hu, fun hq => hr (fun s' hs' => hq s' (List.mem_cons_of_mem _ hs')), ?_⟩
       have hn := evalSeg_normal s true
       simp only [runJobs, segInner, List.isEmpty_cons, Bool.false_eq_true, ↓reduceIte, hn] at ih' ⊢
@@ -262,7 +279,7 @@ theorem runProgram_normal : runProgram .normal = .ok := by
 /-- Master theorem for panic values that are not JS exceptions (uncatchable errors and foreign panics). -/
 theorem hostRun_unclassifiable (entry : Entry) (chain : List Frame) (p : Payload) {x : Pv} {o : StackTop}
     (hp : p.flow = .panic x o) (h : x.unclassifiable = true)
-    (hd : ∀ s ∈ allSegs chain, ∀ q ∈ s, q.2.dropsErrors = false) :
+    (hd : (∀ s ∈ allSegs chain, ∀ q ∈ s, q.2.dropsErrors = false) ∨ asUncatchableException x = none) :
     ∃ x', Unc x x' ∧ ((∀ s ∈ allSegs chain, ∀ q ∈ s, q.2.rewraps = false) → x' = x) ∧
       (hostRun entry chain p).host = escapeHost x' ∧ (hostRun entry chain p).rej = [] ∧
       (hostRun entry chain p).log = normalLogs (allSegs chain).dropLast := by
@@ -272,7 +289,10 @@ theorem hostRun_unclassifiable (entry : Entry) (chain : List Frame) (p : Payload
   simp only at hd
   cases ss with
   | nil =>
-    obtain ⟨x', o', he, hu, hrw⟩ := evalSeg_unclassifiable s0 p.isJS h (hd s0 (List.mem_cons_self ..)) o
+    obtain ⟨x', o', he, hu, hrw⟩ := evalSeg_unclassifiable s0 p.isJS h
+      (by rcases hd with h' | h'
+          · exact Or.inl (h' s0 (List.mem_cons_self ..))
+          · exact Or.inr h') o
     refine ⟨x', hu, fun hq => hrw (hq s0 (List.mem_cons_self ..)), ?_⟩
     have h' := hu.1
     have hc : ∀ b, callable b (.panic x' o') = recoverUncatchable x' o' := fun b => callable_unclassifiable b h' o'
@@ -289,7 +309,9 @@ theorem hostRun_unclassifiable (entry : Entry) (chain : List Frame) (p : Payload
       cases entry <;> simp [hq, h1, ranLeave, finish, wrapJSFuncE, CallRes.toHost, normalLogs]
   | cons s1 tl =>
     obtain ⟨x', hu, hrw, hj⟩ := runJobs_unclassifiable p hp h (s1 :: tl) (by simp)
-      (fun s hs => hd s (List.mem_cons_of_mem _ hs))
+      (by rcases hd with h' | h'
+          · exact Or.inl (fun s hs => h' s (List.mem_cons_of_mem _ hs))
+          · exact Or.inr h')
     refine ⟨x', hu, fun hq => hrw (fun s hs => hq s (List.mem_cons_of_mem _ hs)), ?_⟩
     have hn := evalSeg_normal s0 true
     have hf : ∀ b, firstCall entry b .normal = .ok := by
